@@ -213,6 +213,11 @@ func (o *FilterOptimizer) optimizeBetweenExpr(e *BinaryOpExpr) *ScanType {
 	}
 
 	if field == KeyKW && canUseRange {
+		if bytes.Compare(lower, upper) > 0 {
+			// Reversed bounds hold for no key: the region is empty, not a range
+			// whose end lies before its start (a union would lose the other side)
+			return &ScanType{EMPTY, nil}
+		}
 		return &ScanType{RANGE, [][]byte{lower, upper}}
 	}
 	return &ScanType{FULL, nil}
